@@ -7,7 +7,7 @@
 set -u
 COV=${VERIF_COVERAGE_DIR:-/var/tmp/rocfl-verif-cov}
 rm -rf "$COV"; mkdir -p "$COV/prof"
-export VERIF_COVERAGE_DIR="$COV" LLVM_PROFILE_FILE="$COV/prof/p-%p-%8m.profraw"
+export VERIF_COVERAGE_DIR="$COV" LLVM_PROFILE_FILE="$COV/prof/p-%8m.profraw"
 cd /verif
 PROPS=${*:-C01 C02 C03 C04 C05 C06 C07 C08 C09 C10 C11 C12 C13 C14 C15 C16 C17 C18 C19 C20}
 for p in $PROPS; do
